@@ -37,8 +37,8 @@ def check_cell(cfg, sh, nl, path, seed, part, prior, dec, joker_factory):
     import astropy.units as u
     import thejoker as tj
 
-    t_ref = (pb.T0 - 3.25) if sh["tref"] and cfg["n_offsets"] == 0 else None
-    data, dd = pb.make_data(n=sh["n"], layout=sh["layout"], err=sh["err"], unit=sh["unit"], t_ref=t_ref, seed=seed, n_surveys=cfg["n_offsets"] + 1, t_ref_scale=("utc" if sh["n"] % 2 else "tcb"), interleave=(not sh["tref"]))
+    t_ref = pb.shape_tref(sh, cfg["n_offsets"])
+    data, dd = pb.make_data(n=sh["n"], raw=sh.get("raw", "clean"), container=sh.get("container", "list"), layout=sh["layout"], err=sh["err"], unit=sh["unit"], t_ref=t_ref, seed=seed, n_surveys=cfg["n_offsets"] + 1, t_ref_scale=("utc" if sh["n"] % 2 else "tcb"), interleave=(not sh["tref"]))
     problem = pb.ref_problem(dd, dec)
     theta = theta_rows(seed, float(np.mean(dd["sig"])), part.extra.get("_quick", True))
     th_ref = theta.copy()
@@ -81,6 +81,16 @@ def check_cell(cfg, sh, nl, path, seed, part, prior, dec, joker_factory):
                 part.known_finding("K4", case0, f"rejection_sample raised {type(e).__name__} (NaN posterior)")
                 part.evals += len(idx)
                 return
+            # K6: on a numerically singular problem (cond > 1e14) the kernel returns -inf, nothing is accepted and the empty
+            # batch makes the sampler raise - attributable only with that conditioning
+            from ..numoracle import LnLOracle
+
+            if len(idx) == 1 and LnLOracle(problem, th_ref[idx]).conditioning(0, [frozenset()]) > 1e14:
+                part.known_finding("K6", dict(case0, rows=idx), f"rejection_sample raised {type(e).__name__} on a numerically singular row (kernel returns a non-finite likelihood)")
+                part.evals += 1
+                todo = todo[1:]
+                first = False
+                continue
             part.violation(dict(case0, rows=idx[:3]), f"rejection_sample raised on a valid input: {type(e).__name__}: {str(e)[:200]}")
             return
         P = np.atleast_1d(res["P"].to_value(u.day))
